@@ -55,6 +55,14 @@ def my_default(o):
     return json_default(o)
 
 
+def other_default(o):
+    """A second json_default extension with a different encoding of Custom."""
+    if isinstance(o, Custom):
+        return {"custom_b": o.x}
+    from eliot.json import json_default
+    return json_default(o)
+
+
 def make_rich(kind):
     if kind == "custom":
         return Custom(7)
@@ -80,11 +88,12 @@ def prepare():
 
 
 def expected(v, custom_ok):
-    """The documented JSON encoding of a logged value."""
+    """The documented JSON encoding of a logged value (custom_ok: False | True | "b" selects the
+    json_default extension the destination was given)."""
     if isinstance(v, Custom):
         if not custom_ok:
             raise KeyError("custom")
-        return {"custom": expected(v.x, custom_ok)}
+        return {"custom_b" if custom_ok == "b" else "custom": expected(v.x, custom_ok)}
     if isinstance(v, bool) or v is None or isinstance(v, (int, str)):
         return v
     if isinstance(v, float):
@@ -145,7 +154,13 @@ def setup(rc, interp):
     rc.ftxt = SimFile("txt", text=True)
     rc.file = rc.fbin
     rc.tap = Tap(rc, deep=False)
-    e.add_destinations(e.FileDestination(file=rc.fbin, **kw), e.FileDestination(file=rc.ftxt, **kw), rc.tap)
+    dests = [e.FileDestination(file=rc.fbin, **kw), e.FileDestination(file=rc.ftxt, **kw), rc.tap]
+    rc.fother = None
+    if rc.cfg["custom_default"]:
+        # a third file whose destination was configured with a different json_default extension
+        rc.fother = SimFile("other", text=False)
+        dests.append(e.FileDestination(file=rc.fother, json_default=other_default))
+    e.add_destinations(*dests)
     rc.dirty_seen = []
 
     def observer(s, actor, tag):
@@ -213,6 +228,22 @@ def oracle(rc):
     msgs, raw, tail = O.decode_lines(rc.fbin.os_cache)
     if tail or len(msgs) != n:
         raise Violation("line_count", "%d lines (+%r) for %d messages" % (len(msgs), tail[:40], n))
+    if rc.fother is not None and rc.cfg["world"] == "seq":
+        # same messages, the other extension's encoding
+        omsgs, _r, otail = O.decode_lines(rc.fother.os_cache)
+        if otail or len(omsgs) != n:
+            raise Violation("line_count", "third file: %d lines for %d messages" % (len(omsgs), n))
+        import copy
+        for got, r in zip(omsgs, rc.tap.records):
+            try:
+                want = expected(dict(r.msg), "b")
+            except KeyError:
+                continue
+            from esim.values import canon_fields
+            if canon_fields(got) != canon_fields(want):
+                raise Violation(("per_destination_default", {}),
+                                "the destination configured with another json_default wrote %r for a message "
+                                "whose encoding under that default is %r" % (got, want))
     # value fidelity: transform the model's expected fields into their documented encoding
     kinds = set()
     for node in rc.model.all_nodes():
